@@ -121,8 +121,9 @@ theorem no_confirmation_no_success (T : Nat) (pre : List Tok) (n t : Nat) (r : R
   rw [hno] at this
   exact absurd this (by simp)
 
-/-- The timeout of the model is the declared one (regenerated): 3 s. -/
-theorem timeout_declared : CemiCodes.requestToConfirmationTimeout = 3 := by decide
+/-- The monitor runs with the declared REQUEST_TO_CONFIRMATION_TIMEOUT (regenerated each run; the theorems above hold
+for every value); it is positive, so "within the timeout" is not vacuous. -/
+theorem timeout_declared_positive : 0 < CemiCodes.requestToConfirmationTimeout := by decide
 
 /-- Non-vacuity: a stale confirmation (before the hand-over) does not complete the send - the trace with `ok` is
 rejected, the one ending in the ConfirmationError is accepted; a confirmation after the hand-over completes it. -/
